@@ -104,6 +104,9 @@ def verify_function(c: Contract, registry: Dict[str, Contract]) -> FunctionResul
         env = dict(st.locals)
         for r in c.requires + c.definitions:
             st.assume(ex.spec_bool(st, r, dict(st.locals), fi))
+        for text_, why_ in c.assume_entry:
+            st.assume(ex.spec_bool(st, text_, dict(st.locals), fi))
+            ex.used_assumed[f"assumed at entry of {c.key}: {text_}"] = Contract(key="", why=why_, assumed=True)
         entry = st.fork()
         st.old = entry
         ex.lets = {}
